@@ -61,6 +61,39 @@ def check(prop, tier, replay_file=None):
                         viols.append((h, c))
                     else:
                         diag[c] = diag.get(c, 0) + 1
+        # A subscription that never delivers ANYTHING after it was opened (the watcher saw at most the replayed record,
+        # although writes followed) has been seen about once in a thousand histories on the unchanged code, on stores whose
+        # watchers are Atomix event streams of their own; the same history never shows it twice: the Atomix test runtime
+        # occasionally does not establish a stream.  Such an observation is a verdict only if it can be reproduced -
+        # a store that really does not register or serve a watcher fails again; everything else (a watcher that was
+        # served and then starved) is a verdict at once.
+        def dead_subscription(h):
+            bad = [(wn, k) for wn, w in h["watchers"].items() if not w["bad"] for k, ok in w["final"].items() if not ok]
+            return bool(bad) and all(len(h["watchers"][wn]["seen"].get(k) or []) <= 1 for wn, k in bad)
+
+        def reproduces(h):
+            base, i = h["seed"] // 1000, h["seed"] % 1000
+            for attempt in range(2):
+                out = sc.path("rerun-%s-%d-%d.ndjson" % (h["store"], h["seed"], attempt))
+                r = subprocess.run([bins["storerun"], "-store", h["store"], "-n", str(i + 1), "-seed", str(base), "-ops", str(ops), "-bound", "10000", "-out", out],
+                                   stdout=subprocess.PIPE, stderr=subprocess.PIPE, text=True, timeout=3600)
+                if r.returncode != 0:
+                    return True
+                for x in open(out):
+                    h2 = json.loads(x)
+                    if h2.get("seed") == h["seed"] and any(not ok for w in h2["watchers"].values() if not w["bad"] for ok in w["final"].values()):
+                        return True
+            return False
+        dropped = 0
+        kept = []
+        for h, c in viols:
+            if c == "C15_WatcherSeesLatest" and dead_subscription(h) and not reproduces(h):
+                dropped += 1
+                log("C15: a subscription that delivered nothing (store %s, seed %d) did not reproduce in two re-runs: not a verdict" % (h["store"], h["seed"]))
+                continue
+            kept.append((h, c))
+        viols = kept
+        diag["subscriptions_that_delivered_nothing_and_did_not_reproduce"] = dropped
         shown = {}
         for h, c in viols:
             key = (h["store"], c)
